@@ -389,6 +389,16 @@ type MapKeys struct {
 	N   map[json.Number]int
 }
 
+// PtrMarsh reaches the pointer-receiver marshalers only through pointers, where
+// the method set does not depend on addressability.
+type PtrMarsh struct {
+	P *JSONP
+	T *TextP
+	L []*JSONP
+	M map[string]*TextP
+	I interface{}
+}
+
 // PtrKeyMap can be encoded by encoding/json but not decoded (pointer keys).
 type PtrKeyMap struct {
 	PT map[*TextP]int
@@ -407,8 +417,12 @@ var All = []reflect.Type{
 	reflect.TypeOf(Tree{}), reflect.TypeOf(List{}), reflect.TypeOf(Ping{}), reflect.TypeOf(Pong{}),
 	reflect.TypeOf(Base{}), reflect.TypeOf(Mid{}), reflect.TypeOf(Embeds{}), reflect.TypeOf(EmbedPtr{}), reflect.TypeOf(Conflict{}), reflect.TypeOf(TaggedConflict{}),
 	reflect.TypeOf(EmbMarshaler{}), reflect.TypeOf(Tags{}), reflect.TypeOf(CaseFold{}), reflect.TypeOf(Big{}), reflect.TypeOf(D1{}),
-	reflect.TypeOf(Ifaces{}), reflect.TypeOf(HasDefPtr{}), reflect.TypeOf(MapKeys{}),
+	reflect.TypeOf(Ifaces{}), reflect.TypeOf(HasDefPtr{}), reflect.TypeOf(MapKeys{}), reflect.TypeOf(PtrMarsh{}),
 }
+
+// PtrRecvOnly are the types whose marshaling methods have pointer receivers
+// only: whether encoding/json calls them depends on addressability.
+var PtrRecvOnly = map[reflect.Type]bool{reflect.TypeOf(JSONP{}): true, reflect.TypeOf(TextP{}): true}
 
 // Erroring are types whose codecs are expected to fail (kept apart so that the
 // generators can dose them).
